@@ -446,11 +446,40 @@ func c02Recheck(c *Ctx) {
 	rule := "C02.recheck"
 	c.Doc(rule, "brokerProducer.run buffers a message only after needsRetry(msg) == nil; waitForSpace, which handles responses while it holds a message, returns nil after a handleResponse only across a fresh needsRetry(msg) == nil test (per-partition bounce state included, not only bp.closing)")
 	c.Floor(rule, 2)
+	// "the message need not be retried": needsRetry(msg) == nil, or the same test written out where the helper
+	// was inlined — the per-partition bounce state bp.currentRetries[msg.Topic][msg.Partition] compared with nil,
+	// directly or merged (phi) with bp.closing
 	clear := func(msg VM) Pred {
-		return Cmp{token.EQL, func(v ssa.Value) bool {
+		bounce := func(v ssa.Value) bool {
+			lk, ok := strip(v).(*ssa.Lookup)
+			if !ok || !FieldLoadOf("ProducerMessage.Partition", msg)(lk.Index) {
+				return false
+			}
+			lk2, ok := strip(lk.X).(*ssa.Lookup)
+			return ok && FieldLoad("brokerProducer.currentRetries")(lk2.X) && FieldLoadOf("ProducerMessage.Topic", msg)(lk2.Index)
+		}
+		merged := func(v ssa.Value) bool {
+			ph, ok := v.(*ssa.Phi)
+			if !ok {
+				return false
+			}
+			has := false
+			for _, e := range ph.Edges {
+				switch {
+				case bounce(e):
+					has = true
+				case FieldLoad("brokerProducer.closing")(e):
+				default:
+					return false
+				}
+			}
+			return has
+		}
+		call := func(v ssa.Value) bool {
 			cl, ok := v.(*ssa.Call)
 			return ok && p.CalleeName(&cl.Call) == "brokerProducer.needsRetry" && len(cl.Call.Args) == 2 && msg(cl.Call.Args[1])
-		}, IsNil()}
+		}
+		return AnyOf{Cmp{token.EQL, call, IsNil()}, Cmp{token.EQL, bounce, IsNil()}, Cmp{token.EQL, merged, IsNil()}}
 	}
 	if fn := c.NeedFn(rule, "brokerProducer.waitForSpace"); fn != nil {
 		reg := WholeFn(fn)
